@@ -78,7 +78,7 @@ CHECKS.update({
          True),
  "C17": ("sched+enum", "model_checking",
          "controlled-scheduler exploration with the stop event (Signal pseudo-thread, error cap, fatal error) placed at every scheduling point, small worlds (queue capacity 1-2), deadlock = no enabled thread; stdout closed after every N bytes on the real CLI; shim/real channel conformance",
-         "sched: the real pipeline with every bounded queue overridden to capacity 1 or 2 and batches of 2 packets; a Signal pseudo-thread (does what the ctrl-c handler does) is a lazy thread, so each 1-deviation schedule places the signal at one scheduling point of the default schedule (thorough: of every 1-deviation schedule); error cap -e N for N up to the total; a fatal framing error at every packet index; check all, check all its and filtered writing. Per execution: terminates (exact enabledness: no enabled thread while some thread is alive = deadlock; step horizon), no panic, main reaches its end with every thread joined, a filtered output file walks as whole packets and is a prefix of the expected filtered stream. Vacuity guards: a bounded queue was full in some execution, the stop flag was raised. CLI: views, filtered data, report and -S stdout with the stdout pipe shrunk to 4 KiB and closed after N bytes (every N <= 1100 and every 97th beyond in quick, every N in thorough): no signal, no timeout, no panic text. Conformance: all operation sequences to depth 5 (6 thorough) over 2 sender and 2 receiver handles on real crossbeam bounded(1)/bounded(2)/unbounded and flume agree with the scheduler's rules.",
+         "sched: the real pipeline with every bounded queue overridden to capacity 1 or 2 and batches of 2 packets; a Signal pseudo-thread (does what the ctrl-c handler does) is a lazy thread, so each 1-deviation schedule places the signal at one scheduling point of the default schedule (thorough: of every 1-deviation schedule); error cap -e N for N up to the total; a fatal framing error at every packet index; check all, check all its and filtered writing. Per execution: terminates (exact enabledness: no enabled thread while some thread is alive = deadlock; step horizon), no panic, main reaches its end with every thread joined, a filtered output file walks as whole packets and is a prefix of the expected filtered stream. Vacuity guards: a bounded queue was full in some execution, the stop flag was raised. CLI: views, filtered data, report and -S stdout with the stdout pipe shrunk to 4 KiB and closed after N bytes (every N <= 200, 1000..1050 and every 211th beyond in quick, every N in thorough): no signal, no timeout, no panic text. Conformance: all operation sequences to depth 5 (6 thorough) over 2 sender and 2 receiver handles on real crossbeam bounded(1)/bounded(2)/unbounded and flume agree with the scheduler's rules.",
          "OS signal delivery / the ctrlc crate are outside the scheduler (the handler body is modelled). Step horizon and a 10 s wall cap stand in for 'bounded time'. The TLA+ model of the shutdown protocol planned in DESIGN.md is not built yet.",
          True),
 })
@@ -101,6 +101,19 @@ CHECKS.update({
          "bounded-exhaustive enumeration of encoder-produced readout frames and of frame sequences (fatal-lane memory as a state machine over normal/fatal/absent per lane) through the real LinkValidator in stave mode, judged by the documented rules",
          "Frames from the independent ALPIDE encoder through a real LinkValidator (check all its-stave): inner barrel all 255 lane subsets of size <= 4 (accepted iff one of the fixed groups), chip id / chip count / bunch-counter variants; every hit-content sequence of length <= 2 (3 thorough) over a 10-symbol alphabet whose bytes imitate chip headers, trailers, empty frames and APEs, on a valid and on an invalid frame, with the frame split over pages and a no-data TDH in front in rotation (verdict and ALPIDE readout-flag counters must not vary); middle/outer layers 3..6: legal set, one lane missing, one extra, 6 / 8 chips, permuted order, chip or lane bunch counter deviating, with and without custom chip count/order; every sequence of <= 2 (3 thorough) frames in which each of the three lanes is normal / announces a fatal state / is absent (702 sequences quick). Per frame the set of codes {E72,E73,E74,E75} reported at the frame's start offset must equal the documented verdict; frame-level messages anywhere else are violations.",
          "Abstains on frames in which a lane that announced a fatal state is itself present (the documents do not say how it is counted). Hit values are from a finite adversarial alphabet, not all values.",
+         True),
+})
+
+CHECKS.update({
+ "C14": ("enum", "exploration",
+         "bounded-exhaustive CLI enumeration (streams x 9 modes x filters x JSON/TOML x file/stdin) compared field by field with an independent statistics calculator",
+         "Streams with arbitrary header values over three interleaved links (1, 5, 100, 101 (201) packets; 12 packets with 7-10 KB payloads, total > 2^16), six conforming witness streams, witnesses with 1 / 3 / 21 RDH sanity faults; x 5 check modes, 3 views and filtered writing x filters (none, present link / FEE / layer-stave, absent link) x statistics in JSON and TOML x input from file and stdin. Every field of rdh_stats (RDHs seen incl. skipped, RDHs matching the filter, payload bytes, sorted links, FEE ids in first-seen order, version, data format, system id, run trigger type, HBFs, layer/stave pairs, 20 per-bit trigger counters; the last three only where packets are analysed), total errors, reported error count and distinct codes, and the report rows Total RDHs / Total Errors are compared with the calculator's values.",
+         "The textual description of the run trigger type is not compared (raw value is).",
+         True),
+ "C15": ("enum", "fault_enumeration",
+         "write / read-back round trips on the CLI and single-leaf perturbation of every statistic of the written file (fault enumeration over the file), plus single-field input drift",
+         "Inputs: 6 witness streams clean and with 3 corrupted variants each (messages containing quotes, brackets and newlines end up in the file) x modes {check all its, check sanity, view rdh | check all its-stave} x {JSON, TOML} x {muted, not}: the file a run writes is accepted by the same command with -i (no mismatch text, same exit status); then every leaf of the written file is perturbed one at a time (numbers +1, strings changed, list element removed or added, null -> value; every leaf for JSON, every 3rd for TOML in quick, all in thorough) and each must produce a mismatch message and the any-errors exit status 9; five single-field changes of the input are checked against the old file.",
+         "Not perturbed: is_finalized, alpide_stats outside stave mode (warning only), removal of an element of a fixed-size pair (that is a malformed file, not a changed statistic).",
          True),
 })
 
